@@ -24,6 +24,7 @@ macro_rules! dispatch {
             "C09" => $f(props::c09::C09, $($arg),*),
             "C10" => $f(props::c10::C10, $($arg),*),
             "C11" => $f(props::c11::C11, $($arg),*),
+            "C13" => $f(props::c13::C13, $($arg),*),
             "C14" => $f(props::c14::C14, $($arg),*),
             "C15" => $f(props::c15::C15, $($arg),*),
             "C16" => $f(props::c16::C16, $($arg),*),
